@@ -1,0 +1,7 @@
+//go:build !verif
+// +build !verif
+
+package badger
+
+// verifAfterCommit is a no-op unless built with the `verif` tag.
+func verifAfterCommit() {}
